@@ -61,6 +61,10 @@ func (ev *SpecEval) fail(f string, a ...interface{}) {
 }
 
 func (ev *SpecEval) evalBool(e *SExpr) *Term {
+	if ev.depth == 0 && !liftMode {
+		liftMode = true
+		defer func() { liftMode = false }()
+	}
 	v := ev.eval(e)
 	t, ok := ev.rvalue(v).(*Term)
 	if !ok || t.S != SBool {
